@@ -860,7 +860,7 @@ fn worker_leg(sh: &Shared, seed: u64, walks: usize, len: usize) -> Value {
                     }
                 }
             }
-            *sh.histories_by_len.lock().unwrap().entry(path.len()).or_insert(0) += 1;
+            sh.count_history(&path);
             sh.visited_states.lock().unwrap().insert(twin.cur);
         }
         if std::env::var("C17_DEBUG").is_ok() { eprintln!("history {h} done at {:?}", t0.elapsed()); }
@@ -891,10 +891,20 @@ struct Shared {
     classes: Mutex<BTreeMap<String, u64>>,
     visited_states: Mutex<BTreeSet<usize>>,
     histories_by_len: Mutex<BTreeMap<usize, u64>>,
+    distinct: Mutex<std::collections::HashSet<u64>>,
     samples: Mutex<Vec<Value>>,
 }
 
 impl Shared {
+    /// count a completed history; distinct ones are counted by the hash of their operation sequence
+    fn count_history(&self, path: &[usize]) {
+        use std::hash::{Hash, Hasher};
+        let mut h = std::collections::hash_map::DefaultHasher::new();
+        path.hash(&mut h);
+        self.distinct.lock().unwrap().insert(h.finish());
+        *self.histories_by_len.lock().unwrap().entry(path.len()).or_insert(0) += 1;
+    }
+
     fn report(&self, v: Viol, trace: &[Step], path: &[usize]) {
         *self.classes.lock().unwrap().entry(v.class.clone()).or_insert(0) += 1;
         let mut vs = self.violations.lock().unwrap();
@@ -920,7 +930,7 @@ fn walk_dfs(sh: &Shared, prefix: &mut Vec<usize>, node: usize, depth: usize, dee
             Ok(run) => {
                 let next = run.cur;
                 drop(run);
-                *sh.histories_by_len.lock().unwrap().entry(prefix.len()).or_insert(0) += 1;
+                sh.count_history(prefix);
                 sh.visited_states.lock().unwrap().insert(next);
                 walk_dfs(sh, prefix, next, depth, deep_frac, detours, rng);
             }
@@ -975,7 +985,7 @@ fn main() {
     };
     let c = make_conc(&g, variant, &verif_root, &repo);
     let sh = Arc::new(Shared { g, c, stats: Stats::default(), violations: Mutex::new(Vec::new()), classes: Mutex::new(BTreeMap::new()),
-        visited_states: Mutex::new(BTreeSet::new()), histories_by_len: Mutex::new(BTreeMap::new()), samples: Mutex::new(Vec::new()) });
+        visited_states: Mutex::new(BTreeSet::new()), histories_by_len: Mutex::new(BTreeMap::new()), distinct: Mutex::new(std::collections::HashSet::new()), samples: Mutex::new(Vec::new()) });
 
     let mut worker_stats = Value::Null;
     // a single history given explicitly (re-run of a violation file): --mode one --ops 3,17,9
@@ -1006,7 +1016,7 @@ fn main() {
                         Ok(run) => {
                             let n = run.cur;
                             drop(run);
-                            *sh.histories_by_len.lock().unwrap().entry(1).or_insert(0) += 1;
+                            sh.count_history(&prefix);
                             sh.visited_states.lock().unwrap().insert(n);
                             walk_dfs(&sh, &mut prefix, n, depth, deep_frac, detours, &mut rng);
                         }
@@ -1042,7 +1052,7 @@ fn main() {
                     }
                     let cur = run.cur;
                     if ok {
-                        *sh.histories_by_len.lock().unwrap().entry(path.len()).or_insert(0) += 1;
+                        sh.count_history(&path);
                         if w % 997 == 1 {
                             let mut s = sh.samples.lock().unwrap();
                             if s.len() < 3 {
@@ -1100,7 +1110,7 @@ fn main() {
                     let n = run.cur;
                     let trace = run.trace;
                     sh.visited_states.lock().unwrap().insert(n);
-                    *sh.histories_by_len.lock().unwrap().entry(path.len()).or_insert(0) += 1;
+                    sh.count_history(&path);
                     let resolver = Arc::new(MutexCertificateResolver(Mutex::new(run.r)));
                     let server = hs::server_config(resolver.clone());
                     for (i, p) in sh.c.probes.iter().enumerate() {
@@ -1137,8 +1147,10 @@ fn main() {
             let mut r = CertificateResolver::default();
             let _ = writeln!(out, "{}", json!({"ev": "reset"}));
             events += 1;
+            let mut path: Vec<usize> = Vec::new();
             for _ in 0..len {
                 let k = rng.below(g.ops.len());
+                path.push(k);
                 let op = g.ops[k];
                 let req = build(g, c, &op, address(), &mut rng);
                 let res = catch_unwind(AssertUnwindSafe(|| match &req {
@@ -1162,7 +1174,7 @@ fn main() {
                 events += 1;
                 sh.stats.steps.fetch_add(1, Ordering::Relaxed);
             }
-            *sh.histories_by_len.lock().unwrap().entry(len).or_insert(0) += 1;
+            sh.count_history(&path);
         }
         out.flush().unwrap();
         worker_stats = json!({"trace_events": events, "trace_file": trace_out});
@@ -1235,7 +1247,7 @@ fn main() {
     let st = &sh.stats;
     vh::util::emit(&json!({"kind": "summary", "mode": mode, "concretisation": sh.c.label,
         "spec_states": sh.g.nodes.len(), "spec_states_reached_on_impl": sh.visited_states.lock().unwrap().len(),
-        "histories": st.histories.load(Ordering::SeqCst), "histories_by_length": *sh.histories_by_len.lock().unwrap(),
+        "histories": st.histories.load(Ordering::SeqCst), "histories_by_length": *sh.histories_by_len.lock().unwrap(), "distinct_histories": sh.distinct.lock().unwrap().len(),
         "steps": st.steps.load(Ordering::SeqCst), "noop_steps": st.noop_steps.load(Ordering::SeqCst),
         "probes": st.probes.load(Ordering::SeqCst), "probes_with_several_admissible": st.multi_adm.load(Ordering::SeqCst),
         "probes_admissible_but_not_spec_choice": st.code_differs.load(Ordering::SeqCst),
